@@ -5,6 +5,7 @@ use ivp::dense::StepInterpolant;
 use ivp::methods::{IntegrationResult, BDF, DOP853, DOPRI5, RADAU, RK23, RK4};
 use ivp::prelude::*;
 use ivp::solout::SolOut;
+use ivp::verif_hooks::SolOutProbe;
 use std::cell::{Cell, RefCell};
 
 thread_local! { static NCALLS: Cell<usize> = Cell::new(0); }
@@ -128,6 +129,28 @@ fn solve(r: &Run, f: &F, so: &mut Rec) -> Result<IntegrationResult, ivp::error::
     }
 }
 
+/// Event functions for the handler replay: concrete end-point values per callback, exact zero at
+/// every interior (Brent) probe.
+struct Ev { configs: Vec<(Direction, Option<usize>)>, vals: Vec<Vec<f64>>, call: Cell<usize>, probes: Cell<usize> }
+impl IVP for Ev {
+    fn ode(&self, _x: f64, _y: &[f64], d: &mut [f64]) { d[0] = 0.0; }
+    fn n_events(&self) -> usize { self.configs.len() }
+    fn event_config(&self, i: usize) -> EventConfig {
+        let mut c = EventConfig::new();
+        c.direction(self.configs[i].0);
+        if let Some(n) = self.configs[i].1 { c.terminal_count(n); }
+        c
+    }
+    fn events(&self, _x: f64, _y: &[f64], out: &mut [f64]) {
+        let p = self.probes.get();
+        self.probes.set(p + 1);
+        for i in 0..out.len() {
+            out[i] = if p == 0 { self.vals[self.call.get()][i] } else { 0.0 };
+        }
+    }
+}
+fn interp_id(xi: f64, yi: &mut [f64], _c: &[f64], _xold: f64, _h: f64) { for v in yi.iter_mut() { *v = xi; } }
+
 fn js(v: f64) -> String { if v.is_finite() { format!("{:e}", v) } else { format!("\"{}\"", v) } }
 fn jl(v: &[f64]) -> String { format!("[{}]", v.iter().map(|x| js(*x)).collect::<Vec<_>>().join(",")) }
 
@@ -228,6 +251,71 @@ fn main() {
                 Err(e) => println!("{{\"ok\":false,\"error\":\"{:?}\"}}", e),
             }
         }
-        _ => { eprintln!("usage: probe tableau|fsal|ondemand|script|stiff ..."); std::process::exit(2); }
+        // probe handler XS TEVAL|none FIRST|none DENSE CONFIGS|none VALUES|none
+        //   XS "x0,x1,..", TEVAL "t0,t1,..", CONFIGS "A:0,P:2" (dir:terminal_count, 0 = none), VALUES "v,v;v,v;.." per callback
+        "handler" => {
+            let pf = |s: &str| -> Vec<f64> { if s == "none" || s.is_empty() { vec![] } else { s.split(',').map(|v| v.parse().unwrap()).collect() } };
+            let xs = pf(&a[2]);
+            let te = if a[3] == "none" { None } else { Some(pf(&a[3])) };
+            let fs: Option<f64> = if a[4] == "none" { None } else { Some(a[4].parse().unwrap()) };
+            let dense = a[5] == "1";
+            let configs: Vec<(Direction, Option<usize>)> = if a[6] == "none" { vec![] } else { a[6].split(',').map(|c| {
+                let mut it = c.split(':');
+                let d = match it.next().unwrap() { "P" => Direction::Positive, "N" => Direction::Negative, _ => Direction::All };
+                let n: usize = it.next().unwrap().parse().unwrap();
+                (d, if n == 0 { None } else { Some(n) }) }).collect() };
+            let vals: Vec<Vec<f64>> = if a[7] == "none" { vec![vec![]; xs.len()] } else { a[7].split(';').map(|r| pf(r)).collect() };
+            let ev = Ev { configs, vals, call: Cell::new(0), probes: Cell::new(0) };
+            let mut so = SolOutProbe::new(&ev, te, dense, fs, xs[0], 1);
+            let cont = [0.0f64; 1];
+            let mut flags = vec![];
+            let mut intact = vec![];
+            for k in 0..xs.len() {
+                ev.call.set(k);
+                ev.probes.set(0);
+                let mut x = xs[k];
+                let mut y = [xs[k]];
+                let f = if k == 0 { so.call(xs[0], &mut x, &mut y, None) } else {
+                    let it = StepInterpolant::new(&cont, xs[k - 1], xs[k] - xs[k - 1], interp_id);
+                    so.call(xs[k - 1], &mut x, &mut y, Some(&it))
+                };
+                intact.push(x.to_bits() == xs[k].to_bits() && y[0].to_bits() == xs[k].to_bits());
+                let stop = f == ControlFlag::Interrupt;
+                flags.push(format!("\"{:?}\"", f));
+                if stop { break; }
+            }
+            let (t, y, te_, ye_, ds) = so.into_payload();
+            let yy: Vec<f64> = y.iter().map(|r| r[0]).collect();
+            let tev: Vec<String> = te_.iter().map(|r| jl(r)).collect();
+            let yev: Vec<String> = ye_.iter().map(|r| jl(&r.iter().map(|s| s[0]).collect::<Vec<f64>>())).collect();
+            println!("{{\"t\":{},\"y\":{},\"t_events\":[{}],\"y_events\":[{}],\"flags\":[{}],\"intact\":{:?},\"dense_segs\":{}}}",
+                jl(&t), jl(&yy), tev.join(","), yev.join(","), flags.join(","), intact, ds.len());
+        }
+        // probe radautol : Radau on an 8-dimensional linear decay with a scalar tolerance and with the same
+        // value as a constant vector: step statistics must agree
+        "radautol" => {
+            struct Decay;
+            impl IVP for Decay { fn ode(&self, _x: f64, y: &[f64], d: &mut [f64]) { for i in 0..y.len() { d[i] = -(1.0 + i as f64) * y[i]; } } }
+            let y0 = [1.0f64; 8];
+            let o1 = Options::builder().method(Method::RADAU).rtol(1e-6).atol(1e-9).build();
+            let o2 = Options::builder().method(Method::RADAU).rtol([1e-6; 8]).atol([1e-9; 8]).build();
+            let s1 = solve_ivp(&Decay, 0.0, 2.0, &y0, o1).unwrap();
+            let s2 = solve_ivp(&Decay, 0.0, 2.0, &y0, o2).unwrap();
+            println!("{{\"scalar\":{{\"naccpt\":{},\"nfev\":{},\"y_end\":{}}},\"vector\":{{\"naccpt\":{},\"nfev\":{},\"y_end\":{}}}}}",
+                s1.naccpt, s1.nfev, js(s1.y.last().unwrap()[0]), s2.naccpt, s2.nfev, js(s2.y.last().unwrap()[0]));
+        }
+        // probe firststep : first_step larger than the interval, through solve_ivp, every method
+        "firststep" => {
+            struct Dec; impl IVP for Dec { fn ode(&self, _x: f64, y: &[f64], d: &mut [f64]) { d[0] = -y[0]; } }
+            let mut out = vec![];
+            for (nm, me) in [("RK4", Method::RK4), ("RK23", Method::RK23), ("DOPRI5", Method::DOPRI5), ("DOP853", Method::DOP853), ("RADAU", Method::RADAU), ("BDF", Method::BDF)] {
+                let o = Options::builder().method(me).first_step(2.5).build();
+                let s = solve_ivp(&Dec, 0.0, 1.0, &[1.0], o).unwrap();
+                let last = *s.t.last().unwrap();
+                out.push(format!("\"{}\":{{\"status\":\"{:?}\",\"t\":{},\"ends_at_xend\":{}}}", nm, s.status, jl(&s.t), (last - 1.0).abs() < 1e-9));
+            }
+            println!("{{{}}}", out.join(","));
+        }
+        _ => { eprintln!("usage: probe tableau|fsal|ondemand|script|stiff|handler|radautol|firststep ..."); std::process::exit(2); }
     }
 }
